@@ -520,7 +520,8 @@ func (st *Runtime) executeList(list *ListNode) (returnValue reflect.Value) {
 						}
 					}
 					if valVarSlot < 0 {
-						st.context = rangeValue
+						// unwrap interface{} elements like every other access path does
+						st.context = indirectEface(rangeValue)
 					}
 					returnValue = st.executeList(node.List)
 					indexValue, rangeValue, end = ranger.Range()
